@@ -80,6 +80,13 @@ where
         if E::BaseField::get_modulus_le_bytes() != context.field_modulus_bytes() {
             return Err(VerifierError::InconsistentBaseField);
         }
+
+        // a proof must open the commitments at one position at least
+        if num_unique_queries == 0 {
+            return Err(VerifierError::ProofDeserializationError(
+                "number of unique queries must be greater than zero".to_string(),
+            ));
+        }
         let constraint_frame_width = air.context().num_constraint_composition_columns();
 
         let num_trace_segments = air.trace_info().num_segments();
